@@ -154,6 +154,11 @@ theorem unravelLE_reverse (s : List Nat) (i : Nat) (hi : i < shapeSize s) :
       rw [ih (i % shapeSize ds) (Nat.mod_lt _ hpos)]
       rw [Nat.mod_eq_of_lt (Nat.div_lt_of_lt_mul (by rw [Nat.mul_comm]; exact hi))]
 
+theorem unravel_length (s : List Nat) (i : Nat) : (unravel s i).length = s.length := by
+  induction s generalizing i with
+  | nil => rfl
+  | cons a as ih => simp [unravel, ih]
+
 theorem unravel_inside (s : List Nat) (i : Nat) (hi : i < shapeSize s) :
     inside s (unravelI s i) = true := by
   induction s generalizing i with
